@@ -805,7 +805,8 @@ func (r *reference) judge(o Op, res result) *failure {
 				return fail("push-present", "push of present content %s returned %v, want already-exists", o, res.err)
 			}
 		case !valid:
-			if r.isFile && (res.err == nil || restoreErr(res.err)) && d.Size >= 0 && int64(len(b)) > d.Size && digest.FromBytes(b[:d.Size]) == d.Digest {
+			if r.isFile && d.Size >= 0 && int64(len(b)) > d.Size && digest.FromBytes(b[:d.Size]) == d.Digest {
+				// (whatever Push returns afterwards, the fallback storage has stored the prefix by now)
 				// content.LimitedStorage cuts the reader at Size: the trailing bytes are never seen
 				st := stored{desc: d, bytes: b[:d.Size], node: o.Node}
 				f := r.afterStore(o, d, res, &st)
